@@ -256,8 +256,10 @@ static void mon_quiescent(const char *after)
         conn_fds[ncf]         = (int)c->fd;
         conn_hasq[ncf]        = nq > 0;
         conn_tcp[ncf]         = (c->flags & ARES_CONN_FLAG_TCP) ? 1 : 0;
-        conn_wants_write[ncf] = ((c->flags & ARES_CONN_FLAG_TCP) && ares_buf_len(c->out_buf) > 0 &&
-                                 !(c->flags & ARES_CONN_FLAG_TFO_INITIAL) && !ch->notify_pending_write)
+        /* data waiting in the library (a partial stream write, or a datagram the socket would not take) needs a
+         * write event to go out */
+        conn_wants_write[ncf] = (ares_buf_len(c->out_buf) > 0 && !(c->flags & ARES_CONN_FLAG_TFO_INITIAL) &&
+                                 !((c->flags & ARES_CONN_FLAG_TCP) && ch->notify_pending_write))
                                   ? 1
                                   : 0;
         /* told to watch before events are needed */
@@ -271,7 +273,7 @@ static void mon_quiescent(const char *after)
           }
           if (conn_wants_write[ncf] && !vsock[c->fd].ann_w) {
             vh_violation("fd:unwatched-with-unsent-data",
-                         "after %s: TCP descriptor %d has %zu unsent bytes but the application was not told to watch it for write",
+                         "after %s: descriptor %d has %zu unsent bytes but the application was not told to watch it for write",
                          after, (int)c->fd, ares_buf_len(c->out_buf));
           }
         }
@@ -330,8 +332,9 @@ static void mon_quiescent(const char *after)
         vh_violation("fd:legacy-missing-read", "after %s: ares_fds omits descriptor %d which has outstanding queries", after,
                      conn_fds[k]);
       }
-      if (conn_wants_write[k] && !FD_ISSET(conn_fds[k], &w)) {
-        vh_violation("fd:legacy-missing-write", "after %s: ares_fds omits TCP descriptor %d (unsent data) from the write set", after,
+      /* (a datagram socket nobody is waiting on any more - everything cancelled - is deliberately left out) */
+      if (conn_wants_write[k] && (conn_tcp[k] || conn_hasq[k]) && !FD_ISSET(conn_fds[k], &w)) {
+        vh_violation("fd:legacy-missing-write", "after %s: ares_fds omits descriptor %d (unsent data) from the write set", after,
                      conn_fds[k]);
       }
       if (n_all == 0 && !conn_tcp[k] && FD_ISSET(conn_fds[k], &r)) {
@@ -357,8 +360,8 @@ static void mon_quiescent(const char *after)
           vh_violation("fd:legacy-missing-read", "after %s: ares_getsock omits descriptor %d which has outstanding queries", after,
                        conn_fds[k]);
         }
-        if (conn_wants_write[k] && !wr) {
-          vh_violation("fd:legacy-missing-write", "after %s: ares_getsock omits TCP descriptor %d (unsent data) from the write set",
+        if (conn_wants_write[k] && (conn_tcp[k] || conn_hasq[k]) && !wr) {
+          vh_violation("fd:legacy-missing-write", "after %s: ares_getsock omits descriptor %d (unsent data) from the write set",
                        after, conn_fds[k]);
         }
       }
